@@ -658,6 +658,9 @@ func unop(fr *frame, instr *ssa.UnOp, x Val) Val {
 		if p == nil {
 			fr.fault(instr, "nilderef", "invalid memory address or nil pointer dereference")
 		}
+		if len(cellGuards) > 0 {
+			guardCheck(fr, instr, cellGuards[p], false)
+		}
 		return load(p)
 	case token.NOT:
 		return notVal(x)
@@ -987,6 +990,7 @@ func lookupOp(fr *frame, instr *ssa.Lookup) Val {
 		var v Val
 		ok := false
 		if x != nil {
+			guardCheck(fr, instr, x.guard, false)
 			if i := mapFind(fr, instr, x, idx); i >= 0 {
 				v, ok = copyVal(x.vals[i]), true
 			}
@@ -1023,6 +1027,28 @@ func checkHashable(fr *frame, instr ssa.Instruction, kt types.Type, k Val) {
 }
 
 // mapFind returns the entry index of key k or -1; symbolic keys fork.
+// guardCheck: lockset monitor — an access to a guarded table without its mutex.
+func guardCheck(fr *frame, instr ssa.Instruction, g *guardInfo, write bool) {
+	if g == nil || in.path == nil {
+		return
+	}
+	l := lockOf(g.mu)
+	if l.writer || (!write && l.readers > 0) {
+		return
+	}
+	kind := "read"
+	if write {
+		kind = "write"
+	}
+	site := "?"
+	if instr != nil {
+		site = fr.site(instr)
+	} else if fr != nil {
+		site = fr.fn.String()
+	}
+	in.path.guardViol = append(in.path.guardViol, kind+" of "+g.name+" without its mutex at "+site)
+}
+
 func mapFind(fr *frame, instr ssa.Instruction, m *Map, k Val) int {
 	checkHashable(fr, instr, m.kt, k)
 	hk, conc := hashKey(k)
@@ -1056,6 +1082,7 @@ func mapFind(fr *frame, instr ssa.Instruction, m *Map, k Val) int {
 }
 
 func mapInsert(fr *frame, instr ssa.Instruction, m *Map, k, v Val) {
+	guardCheck(fr, instr, m.guard, true)
 	v = copyVal(v)
 	if i := mapFind(fr, instr, m, k); i >= 0 {
 		setCell(&m.vals[i], v)
@@ -1093,6 +1120,7 @@ func mapDelete(fr *frame, m *Map, k Val) {
 	if m == nil {
 		return
 	}
+	guardCheck(fr, nil, m.guard, true)
 	i := mapFind(fr, nil, m, k)
 	if i < 0 {
 		return
@@ -1302,6 +1330,9 @@ func rangeIter(fr *frame, instr *ssa.Range, x Val) Val {
 	checkPoison(x)
 	switch x := x.(type) {
 	case *Map:
+		if x != nil {
+			guardCheck(fr, instr, x.guard, false)
+		}
 		return &mapIter{m: x}
 	case string, SymStr:
 		return &strIter{b: strBytes(x)}
